@@ -1,4 +1,5 @@
 \* as quick with <= 4 blocks, diffs of <= 2 entries
+\* measured: 101 147 distinct states, ~1 min on 4 workers
 CONSTANTS
   Users = {"c1"}
   Sys = {}
